@@ -36,7 +36,7 @@ def base_scenarios(rng, n):
             sc["place"]["before_sleep"] = "call"
         sc["bs_kind"] = rng.choice(["sync", "async"])
         sc["poll"] = True
-        init = rng.choice(["expired", "expired", "expired", "closed", "near"])
+        init = rng.choice(["expired", "expired", "expired", "closed", "near", "probing"])
         th = rng.randint(1, 3)
         trip = sorted(set(rng.sample(gen.CLASSES, rng.randint(2, 6))) | {"TRANSIENT"})
         recovery = rng.choice([1.0, 5.0])
@@ -45,6 +45,9 @@ def base_scenarios(rng, n):
             pre = [["fail", "TRANSIENT"]] * th + [["adv", recovery + rng.choice([0.0, gen.G, 1.0])]]
         elif init == "near":
             pre = [["fail", "TRANSIENT"]] * (th - 1)
+        elif init == "probing":
+            # half-open with SOMEONE ELSE's probe in flight: the call under test is rejected - and must leave that probe alone
+            pre = [["fail", "TRANSIENT"]] * th + [["adv", recovery + gen.G], ["allow"]]
         sc["cfg"]["breaker"] = {"threshold": th, "window": rng.choice([10.0, 100.0]), "recovery": recovery, "trip_on": trip, "class_thresholds": {}, "pre": pre, "init": init}
         sc["cfg"]["deadline_s"] = rng.choice([1000.0, 1000.0, 2.0])
         if k % 5 == 4:
@@ -96,6 +99,16 @@ def judge(ctx, sc, entry, recs, h, world, stats):
         return
     if not allows[0][1]:
         ctx.inc("rejected_runs")
+        told = [e for e in tr if e[0] in ("br.success", "br.failure", "br.cancel")]
+        lab = how_label(sc, rec) if sc.get("fault") else "rejected"
+        if told:
+            ctx.viol("rejected-call-reported:" + lab, f"[{entry}] the call was rejected (state {allows[0][2]}), yet it reported {[e[0] for e in told]} to the breaker ({lab})", common.payload(sc, entry, 0))
+        elif sc["cfg"]["breaker"].get("init") == "probing":
+            ctx.inc("rejected_while_another_probe_in_flight")
+            with env.active(world):
+                d = CircuitBreaker.allow(h.breaker)
+            if d.allowed:
+                ctx.viol("rejected-call-released-another-probe:" + lab, f"[{entry}] the call was rejected while another caller's probe was in flight ({lab}); right afterwards allow() admits a second probe", common.payload(sc, entry, 0))
         return
     ctx.inc("admitted_runs")
     recs_ = [e for e in tr if e[0] in ("br.success", "br.failure", "br.cancel")]
@@ -259,6 +272,7 @@ def conclude(ctx):
         "settle:ended": (ctx.cnt["settle:ended"], 200),
         "settle:hook-raised": (ctx.cnt["settle:hook-raised"], 200),
         "settle:interrupted-inside": (ctx.cnt["settle:interrupted-inside"], 200),
+        "rejected_while_another_probe_in_flight": (ctx.cnt["rejected_while_another_probe_in_flight"], 100),
         "distinct (entry, termination) cells": (len(ctx.sets["cells"]), 60),
     }
     floors.update(tconc.floors(ctx, components=True))
